@@ -24,9 +24,11 @@ package fiber
 
 //@ func (*DefaultCtx).Get assumed pure
 //@   defines result == reqHeader(c, key, epoch)
+//@   ensures [C06] immutable-stable: c.app.config.Immutable && copies(c.app.getString) ==> stable(result) || (len(defaultValue) > 0 && result == defaultValue[0])
 
 //@ func parseAddr assumed pure
 //@   defines result0 == parseAddrHost(raw)
+//@   ensures [C06] host-is-prefix-of-raw: len(result0) <= len(raw) && result0 == raw[:len(result0)]
 
 //@ func (*DefaultCtx).IsProxyTrusted
 //@   props C10
@@ -47,6 +49,7 @@ package fiber
 //@   defines result == scheme(c, epoch)
 //@   ensures tls-https: isTLS(c.fasthttp, epoch) ==> result == "https"
 //@   ensures untrusted-http: !isTLS(c.fasthttp, epoch) && !trusted(c, epoch) ==> result == "http"
+//@   ensures [C06] immutable-stable: c.app.config.Immutable && copies(c.app.getString) ==> stable(result)
 
 //@ func (*DefaultCtx).Secure
 //@   props C10
@@ -57,14 +60,17 @@ package fiber
 //@   pure
 //@   defines result == host(c, epoch)
 //@   ensures untrusted-uri-host: !trusted(c, epoch) ==> result == uriHost(reqURI(c.fasthttp.Request, epoch), epoch)
+//@   ensures [C06] immutable-stable: c.app.config.Immutable && copies(c.app.getString) ==> stable(result)
 
 //@ func (*DefaultCtx).Hostname
 //@   props C10
 //@   ensures from-host: result == parseAddrHost(host(c, epoch))
+//@   ensures [C06] immutable-stable: c.app.config.Immutable && copies(c.app.getString) ==> stable(result)
 
 //@ func (*DefaultCtx).IP
 //@   props C10
 //@   ensures untrusted-remote-ip: !trusted(c, epoch) || len(c.app.config.ProxyHeader) == 0 ==> result == ipString(remoteIP(c.fasthttp, epoch))
+//@   ensures [C06] immutable-stable: c.app.config.Immutable && copies(c.app.getString) ==> stable(result)
 
 //@ func (*DefaultCtx).extractIPFromHeader
 //@   props C10 C07
@@ -74,6 +80,7 @@ package fiber
 //@   loop 3
 //@     invariant i-le-j: i <= j
 //@   ensures valid-ip: c.app.config.EnableIPValidation ==> isIPv4(result) || isIPv6(result) || result == ipString(remoteIP(c.fasthttp, epoch))
+//@   ensures [C06] immutable-stable: c.app.config.Immutable && copies(c.app.getString) ==> stable(result)
 
 //@ func (*DefaultCtx).BaseURL
 //@   props C10
